@@ -84,6 +84,7 @@ fn main() {
     "C18" => props::c18::run(&ctx, &mut rep),
     "C19" => props::c19::run(&ctx, &mut rep),
     "C20" => props::c20::run(&ctx, &mut rep),
+    "C21" => props::c21::run(&ctx, &mut rep),
     "C22" => props::c22::run(&ctx, &mut rep),
     "C23" => props::c23::run(&ctx, &mut rep),
     "C24" => props::c24::run(&ctx, &mut rep),
